@@ -284,6 +284,48 @@ def amuset(ctx, rev, opt, reweight, num):
         ctx.check('eigenvalues sorted descending', bool(np.all(np.diff(np.real(ev)) <= 1e-12)))
         if num is not None:
             ctx.check('at most num_eigvals eigenvalues', len(ev) <= num)
+        if ctx.mode == 'conc':
+            # the property's own sentence: eigenvalues == those of the dense projected generator built from the transformed data matrix and its
+            # generator image (finite-difference derivatives of the product functions), same singular-value cut
+            xn, bn, sn = np.asarray(x), np.asarray(b), np.asarray(sig)
+            ww = np.ones(m) if w is None else np.asarray(w, dtype=float)
+            idxs = list(itertools.product(*[range(k) for k in n]))
+
+            def fprod(sidx, q):
+                v = 1.0
+                for k, i in enumerate(sidx):
+                    v *= float(phi[k][i](q))
+                return v
+            Psi = np.array([[fprod(sidx, xn[:, l]) for l in range(m)] for sidx in idxs])
+            U_, S_, Vt_ = np.linalg.svd(Psi * np.sqrt(ww)[None, :], full_matrices=False)
+            r_ = int(np.sum(S_ / S_[0] > 1e-10))
+            U_, S_, Vt_ = U_[:, :r_], S_[:r_], Vt_[:r_, :]
+            hh = 1e-4
+            Mexp = np.zeros((r_, r_))
+            for l in range(m):
+                pt = xn[:, l]
+                G = np.zeros((d, len(idxs)))
+                Lp = np.zeros(len(idxs))
+                a_ = sn[:, :, l] @ sn[:, :, l].T
+                for si, sidx in enumerate(idxs):
+                    f_ = lambda q: fprod(sidx, q)
+                    H_ = np.zeros((d, d))
+                    for i in range(d):
+                        e = np.zeros(d); e[i] = hh
+                        G[i, si] = (f_(pt + e) - f_(pt - e)) / (2 * hh)
+                        for j in range(d):
+                            e2 = np.zeros(d); e2[j] = hh
+                            H_[i, j] = (f_(pt + e + e2) - f_(pt + e - e2) - f_(pt - e + e2) + f_(pt - e - e2)) / (4 * hh * hh)
+                    Lp[si] = float(bn[:, l] @ G[:, si] + 0.5 * np.sum(a_ * H_))
+                if rev:
+                    GG = G @ U_ @ np.diag(1 / S_)
+                    Mexp += -0.5 * ww[l] * GG.T @ a_ @ GG
+                else:
+                    Mexp += np.sqrt(ww[l]) * np.outer(Vt_[:, l], Lp @ U_ @ np.diag(1 / S_))
+            ref = np.sort(np.real(np.linalg.eigvals(Mexp)))[::-1]
+            k_ = min(len(ref), len(ev))
+            if S_[-1] / S_[0] > 1e-6 and k_ > 0:
+                ctx.eq('eigenvalues == those of the dense projected generator matrix', np.sort(np.real(np.asarray(ev)))[::-1][:k_], ref[:k_], tol=1e-4)
         return
 
     def body():
